@@ -34,6 +34,12 @@ fn pair() -> (InitState<Vec<u8>>, InitState<Vec<u8>>, Arc<[Ed25519PublicKey]>) {
 }
 fn hex(b: &[u8]) -> String { let mut s = String::new(); for x in b.iter().take(200) { s.push_str(&format!("{:02x}", x)); } if b.len() > 200 { s.push_str("..."); } s }
 
+
+// every check of this driver is tagged with the properties whose statement it is taken from; when the driver is consulted for ONE
+// property (VERIF_PROPERTY, set by ./check) only the failures tagged with it count
+fn counts(tags: &str) -> bool {
+    match std::env::var("VERIF_PROPERTY") { Ok(p) if !p.is_empty() => tags.split(',').any(|t| t == p), _ => true }
+}
 /// Ok(true): accepted, Ok(false): rejected, Err: panic
 fn feed(bytes: &[u8], trusted: &Arc<[Ed25519PublicKey]>) -> Result<bool, ()> {
     let b = bytes.to_vec();
@@ -62,13 +68,14 @@ fn handshake_decoder_is_total_and_accepts_only_signed_messages() {
         let only_panics = std::env::var("VERIF_ONLY_PANICS").map(|v| v == "1").unwrap_or(false);
         let bad = match res { Err(()) => Some("panic"), Ok(true) if !may_accept && !only_panics => Some("accepted although its signed content is not genuine"), _ => None };
         if let Some(b) = bad {
+            if !counts(if b == "panic" { "C08,C16,C01" } else { "C01,C16" }) { return; }
             *failing += 1;
             if *failing <= 3 { println!("FAILING-INPUT: {} ({} bytes) {}: {}", what, bytes.len(), hex(bytes), b); }
         }
     };
     for g in genuine.iter() {
         report("genuine handshake message", g, feed(g, &trusted), true, &mut failing);
-        if feed(g, &trusted) != Ok(true) { failing += 1; println!("FAILING-INPUT: genuine handshake message {} is rejected", hex(g)); }
+        if feed(g, &trusted) != Ok(true) && counts("C16,C01,C06") { failing += 1; println!("FAILING-INPUT: genuine handshake message {} is rejected", hex(g)); }
         // where the signed part ends: the signature length byte + signature are the tail
         let siglen = 64usize;
         let signed_end = g.len() - siglen - 1;
@@ -149,12 +156,12 @@ fn handshake_decoder_is_total_and_accepts_only_signed_messages() {
                 Ok((InitMsg::Ping { algorithms, .. }, _)) => {
                     let same = algorithms.allow_unencrypted == plain && algorithms.algorithm_speeds.len() == list.len()
                         && algorithms.algorithm_speeds.iter().zip(list.iter()).all(|(x, y)| x.0 == y.0 && x.1 == y.1);
-                    if !same {
+                    if !same && counts("C06,C16") {
                         failing += 1;
                         if failing <= 3 { println!("FAILING-INPUT: a ping advertising {} cipher(s) in order {:?} (subset mask {:#05b}) with plain={} is read back with {} cipher(s), plain={}: the advertised list does not reach the negotiation unaltered", list.len(), order, mask, plain, algorithms.algorithm_speeds.len(), algorithms.allow_unencrypted); }
                     }
                 }
-                _ => { failing += 1; if failing <= 3 { println!("FAILING-INPUT: a genuine ping advertising {} cipher(s), plain={} is not read back as a ping", list.len(), plain); } }
+                _ => if counts("C06,C16") { failing += 1; if failing <= 3 { println!("FAILING-INPUT: a genuine ping advertising {} cipher(s), plain={} is not read back as a ping", list.len(), plain); } }
             }
         } } }
     }
